@@ -102,7 +102,7 @@ def run(ctx):
     ctx.sample({"real_events": [_strip(e) for e in sessions[0]["events"][:4]]})
 
     # ---- P-VALIDATE: long random histories
-    n, ln = (16, 30) if q else (160, 80)
+    n, ln = (16, 30) if q else (96, 60)
     rec = ctx.driver(b, ["record", str(n), str(ln)], timeout=3000)
     rec = sorted([o for o in rec if "trace" in o], key=lambda o: o["trace"])
     if len(rec) != n:
@@ -137,7 +137,9 @@ def run(ctx):
                                    "passwords: 'a', a 290-byte one with NUL/tab, a non-ASCII one (+5 near-miss ones in random histories); "
                                    "labels ASCII / non-ASCII / with quotes; '' only as a wrong password",
                                    "imported accounts are sealed under the target wallet's scrypt parameter set and always carry a fresh key",
-                                   "legacy aes-256-ctr protected keys are outside the domain"])
+                                   "passwords that differ only by trailing NUL bytes are one scrypt input (PBKDF2-HMAC pads the key "
+                                   "with zeros) and count as the same password",
+                                   "legacy aes-256-ctr protected keys are outside the domain (observation in notes/built/C43.md)"])
 
 
 def _replay(ctx, b):
